@@ -128,6 +128,17 @@ def main():
                     plan.append({"lines": ["5 INPUT A,B,C,D,E,F,G,S$", "10 " + stmt],
                                  "opts": {"add_standard_prefix": prefix, "initialize_vars": bool(len(plan) % 2)},
                                  "scripts": scripts(), "fuel": 120, "tag": form, "prefix": prefix})
+    # every form (variable operands) in other placements: before another statement, before another line, in the arms of an IF, in a loop
+    first = "5 INPUT A,B,C,D,E,F,G,S$"
+    for form in FORMS:
+        if form.startswith("IF "):
+            continue
+        st = instantiate(form, ["var"] * nslots(form), "var")
+        for tag, lines in (("then-next-statement", [first, "10 " + st + " :Z=1"]), ("then-next-line", [first, "10 " + st, "20 Z=1:Y=2"]),
+                           ("in-THEN-arm", [first, "10 IF A=11 THEN Z=1 ELSE " + st, "20 Y=2"]), ("in-ELSE-and-THEN-arms", [first, "10 IF A=20 THEN " + st + " ELSE " + st, "20 Y=2"]),
+                           ("in-loop", [first, "10 FOR I=1 TO 2:" + st + ":NEXT:Y=2"])):
+            plan.append({"lines": lines, "opts": {"add_standard_prefix": len(plan) % 3 == 0, "initialize_vars": bool(len(plan) % 2)},
+                         "scripts": scripts(), "fuel": 160, "tag": form, "prefix": len(plan) % 3 == 0})
     rep.count("forms", len(FORMS))
     cases, vds = refcheck.run(rep, wd, plan, module="Trace_C04", extra_case=lambda p: {"prefix": p["prefix"]})
     forms_ok = set()
